@@ -10,6 +10,7 @@ def main():
     ap.add_argument('--write-baseline', action='store_true')
     a = ap.parse_args()
     seed = int(os.environ.get('VERIF_SEED', '0') or 0)
+    os.environ['VERIF_TIER'] = a.tier
     from engine import runner
     try:
         if a.replay:
